@@ -263,6 +263,39 @@ def cli_case(ill):
         shutil.rmtree(d, ignore_errors=True)
 
 
+VIEW_ILL = ['sum(by("month")) > limit', 'total > "x"', 'nosuch > limit', 'max(by("bogus")) > 1', 'tags > limit', 'payments.count > limit',
+            'category == "Food" and sum(by("month")) > limit', 'months >= 2 and total[0] > limit']
+
+
+def views_case(ill):
+    """A view whose filter cannot be evaluated (for some or all merchants) and that declares a view-local variable: every OTHER
+    view must list exactly the merchants it lists when the failing view is not in the file."""
+    from tally.analyzer import analyze_transactions, classify_by_sections
+    from tally.section_engine import parse_sections
+    d = datetime.datetime
+    txns = []
+    for name, cat, pays in (('Grocer', 'Food', [(1, 5, 150.0), (2, 6, 150.0)]), ('Cinema', 'Fun', [(1, 9, 600.0)]), ('Kiosk', 'Food', [(2, 2, 20.0)])):
+        for mo, day, amt in pays:
+            txns.append({'date': d(2025, mo, day), 'description': name, 'raw_description': name.upper(), 'amount': amt, 'merchant': name,
+                         'category': cat, 'subcategory': '', 'source': 'Card', 'tags': []})
+    others = '[Over Limit]\nfilter: total > limit\n\n[Under Limit]\nfilter: not (total > limit)\n\n[Twice]\nthreshold = limit * 2\nfilter: total > threshold\n'
+    bad = '[Bad]\nlimit = 500\nthreshold = 1\nfilter: %s\n\n' % ill
+    out = {}
+    for key, text in (('with-first', 'limit = 100\n\n' + bad + others), ('with-last', 'limit = 100\n\n' + others + '\n' + bad), ('without', 'limit = 100\n\n' + others)):
+        try:
+            cfg = parse_sections(text)
+        except Exception as e:
+            return ill, 'REJECTED: %s' % e
+        stats = analyze_transactions([dict(t) for t in txns])
+        try:
+            res = classify_by_sections(stats['by_merchant'], cfg, stats['num_months'])
+        except Exception as e:
+            out[key] = 'EXC:' + repr(e)
+            continue
+        out[key] = {n: sorted(m for m, _ in ms) for n, ms in res.items() if n != 'Bad'}
+    return ill, out
+
+
 def run(ck):
     quick = ck.tier == 'quick'
     ck.assumptions += ['"accepted by the loader" = parse_merchants / parse_sections / parse_expression do not reject the text',
@@ -304,6 +337,21 @@ def run(ck):
                                  {'rules_text': text, 'mode': mode, 'with': a[path], 'without': b[path]},
                                  '%s: failing %s %r changes the outcome: %s vs %s' % (path, pos, ill, a[path], b[path]))
     ck.sample({'failing_expression': ILL[0], 'positions': [p for p, _, _ in files_for(ILL[0])]})
+    # 2b. failing VIEW filters (with view-local variables): the other views are what they are without the failing view
+    for ill, out in par.pmap(views_case, VIEW_ILL):
+        ck.case(n=3)
+        ck.trace(3)
+        ck.case(('view', ill), nontrivial=True, n=0)
+        if isinstance(out, str):
+            continue                       # the views reader rejects the text: not an accepted file
+        for key in ('with-first', 'with-last'):
+            if isinstance(out[key], str):
+                ck.violation({'site': 'classify_by_sections', 'clause': 'aborts', 'position': 'view'}, {'filter': ill, 'error': out[key]},
+                             'classify_by_sections aborts on a view whose filter is %r: %s' % (ill, out[key]))
+            elif out[key] != out['without']:
+                ck.violation({'site': 'classify_by_sections', 'clause': 'differs-from-file-without-it', 'position': 'view/' + key.split('-')[1]},
+                             {'filter': ill, 'with': out[key], 'without': out['without']},
+                             'a view whose filter %r cannot be evaluated changes the other views: %s vs %s' % (ill, out[key], out['without']))
     # 3. type-confused random expressions through the real evaluator, validated by Trace_Expr
     shards = 4 if quick else 16
     dis = 0
